@@ -6,6 +6,7 @@ import CoupeModel.Driver.Util
 
 ops (see `harness/src/props/c11.rs`):
 * `mj <D> <threads> <parts> <maxiter> <n> <w…> <coords point-major>`
+* `mjs <scale code> <D> <threads> <parts> <maxiter> <n> <w…> <coords>` (weights times a scale)
 * `split <threads> <den> <k> <m…> <nw> <w…> <np> <perm…>`
 * `scheme <parts> <maxiter>`
 * `splitmany <len> <k> <p…>`
@@ -40,19 +41,24 @@ def thresholdsF (total : Float) (den : Nat) : List Nat → Float → List Float
     let c' := c + total * (Float.ofNat a / Float.ofNat den)
     c' :: thresholdsF total den as c'
 
-/-- The refinement loop with the real float condition, started at the slab's beginning
-(the scan only chooses a start whose prefix sum does not exceed the threshold, and the
-condition is monotone in the prefix sum, so the start does not matter). -/
-def idxF (t : Float) : List Nat → Nat → Nat → Nat
+/-- The refinement loop with the real float condition (since f7a6b90 the `Ulps` test compares
+`threshold / total_weight` with `(sum + w) / total_weight`), started at the slab's beginning:
+for `total > 0` the scan only chooses a start whose prefix sum does not exceed the threshold,
+every earlier element passes the condition (`P < t`, or `P = t` and the two ratios are equal),
+and the condition is monotone in the prefix sum, so the start does not matter. -/
+def idxF (total t : Float) : List Nat → Nat → Nat → Nat
   | [], idx, _ => idx
   | w :: rest, idx, sum =>
     let s := Float.ofNat (sum + w)
-    if s < t || ulpsEq t s then idxF t rest (idx + 1) (sum + w) else idx
+    if s < t || ulpsEq (t / total) (s / total) then idxF total t rest (idx + 1) (sum + w) else idx
 
-/-- Float replica of `compute_split_positions` on the slab weights `sw`. -/
+/-- Float replica of `compute_split_positions` on the slab weights `sw`.  A slab of total
+weight 0: every threshold is 0, no block exceeds it, the scan is exhausted and every split
+is the slab's end (the ratios are `0/0 = NaN`, the refinement loop does not even start). -/
 def splitF (sw mods : List Nat) (den : Nat) : List Nat :=
   let total := Float.ofNat sw.sum
-  (thresholdsF total den mods.dropLast 0.0).map (fun t => idxF t sw 0 0)
+  if sw.sum == 0 then mods.dropLast.map (fun _ => sw.length)
+  else (thresholdsF total den mods.dropLast 0.0).map (fun t => idxF total t sw 0 0)
 
 /-- A chunking with blocks of `b` elements. -/
 def chunkBy (b : Nat) (n : Nat) : List Nat :=
@@ -319,6 +325,22 @@ def handle (toks : List String) : String :=
       if rest.isEmpty && (d == 2 || d == 3) then some (d, parts, mi, n, ws, cs) else none) with
     | none => "bad-op"
     | some (d, parts, mi, n, ws, cs) => handleMj d parts mi n ws cs
+  | "mjs" :: scale :: d :: _threads :: parts :: mi :: n :: rest =>
+    -- weight-scale stream: scales 0..6 are decimal (1e-30 … 1e30: the scaled weights are not
+    -- exact, oracle only), 7..9 are powers of two (2^-60, 2^-30, 2^30: every float operation
+    -- of the code scales exactly, the prediction is the one for the unscaled weights)
+    match (do
+      let scale ← parseNat? scale
+      let d ← parseNat? d
+      let parts ← parseNat? parts
+      let mi ← parseNat? mi
+      let n ← parseNat? n
+      let (ws, rest) ← takeParsed parseNat? n rest
+      let (cs, rest) ← takeParsed parseInt? (n * d) rest
+      if rest.isEmpty && (d == 2 || d == 3) && scale ≤ 9 then some (scale, d, parts, mi, n, ws, cs) else none) with
+    | none => "bad-op"
+    | some (scale, d, parts, mi, n, ws, cs) =>
+      if scale < 7 then "skip decimal-scale (oracle only)" else handleMj d parts mi n ws cs
   | ["mjl", d, _threads, parts, mi, n, cshape, wshape, seed, cmp] =>
     match parseNat? d, parseNat? parts, parseNat? mi, parseNat? n, parseNat? cshape, parseNat? wshape,
         parseNat? seed, parseNat? cmp with
